@@ -134,11 +134,11 @@ minv = Fn(IM + 'inv', ret='r', level='L1', valid='self.nrows == self.ncols', pan
           requires=['C01.minv.wf:: wf(*self) && self.nrows > 0', 'C01.minv.machine:: self.nrows * self.nrows <= i32max()'],
           ensures=['C01.minv.valid:: self.nrows == self.ncols', 'C01.minv.shape:: r.nrows == self.nrows && r.ncols == self.nrows && wf(r)',
                    'C01.minv.columns:: minverse_of(self.data.v@, self.nrows as int, r.data.v@)'],
-          rewrites=[('self.solve(&Matrix::eye(self.nrows))',
-                     '({ let id_ = Matrix::eye(self.nrows); proof { let ghost n_ = self.nrows as int; assert(is_identity(id_.data.v@, n_)) by { '
-                     'assert forall|i: int, j: int| 0 <= i < n_ && 0 <= j < n_ implies rv(#[trigger] at2(id_.data.v@, n_, i, j)) == (if i == j { 1real } else { 0real }) by { } } } '
-                     'let r_ = self.solve_m(&id_); proof { assert(minverse_of(self.data.v@, self.nrows as int, r_.data.v@)); } r_ })',
-                     'R31 + trait dispatch: the argument is a &Matrix, so this is Solve<Matrix>::solve (emitted here under the name solve_m)')])
+          rewrites=[(r'self\.solve\(&Matrix::eye\(self\.(nrows|ncols)\)\)',
+                     r'({ let id_ = Matrix::eye(self.\1); proof { let ghost n_ = self.nrows as int; assert(is_identity(id_.data.v@, n_)) by { '
+                     r'assert forall|i: int, j: int| 0 <= i < n_ && 0 <= j < n_ implies rv(#[trigger] at2(id_.data.v@, n_, i, j)) == (if i == j { 1real } else { 0real }) by { } } } '
+                     r'let r_ = self.solve_m(&id_); proof { assert(minverse_of(self.data.v@, self.nrows as int, r_.data.v@)); } r_ })',
+                     'R31 + trait dispatch: the argument is a &Matrix, so this is Solve<Matrix>::solve (emitted here under the name solve_m)', 're')])
 UNITS.append(Unit('C01_matrix_inv', ('C01', 'C11'), [msolve_m, minv], use=core.core_stubs() + [rec.mlu_full(), mlu_solve_m, c15.eye], types=core.TYPES, type_spec=core.TYPE_SPEC,
                   spec=SPEC + MINV_SPEC, preludes=PRE, broadcast=BC, level='L1', rlimit=100,
                   notes='Matrix::solve(&Matrix) is lu + the column-by-column lu_solve: one factorisation P A = L U, every column of the result satisfies the solve equations and (theorem_lu_solves) '
